@@ -18,6 +18,8 @@ MUTATORS = {"diagonalize_inertia", "merge_faces", "sort_faces"}
 EXCLUDED = {"plot", "to_plato_scene"}
 ALL = ["ConvexPolyhedron", "Polyhedron", "ConvexSpheropolyhedron", "Polygon", "ConvexPolygon", "ConvexSpheropolygon",
        "Circle", "Ellipse", "Sphere", "Ellipsoid"]
+# a second base per class where absolute tolerances could hide: the same wedge in nanometres
+BASE2 = {"ConvexPolyhedron": "wedge5_nano", "Polyhedron": "wedge5_nano", "ConvexSpheropolyhedron": "wedge5_r_nano"}
 BASE = {"ConvexPolyhedron": "wedge5", "Polyhedron": "wedge5", "ConvexSpheropolyhedron": "wedge5_r",
         "Polygon": "dart_cw", "ConvexPolygon": "kite", "ConvexSpheropolygon": "kite_r",
         "Circle": "circle", "Ellipse": "ellipse_ab", "Sphere": "sphere", "Ellipsoid": "ellipsoid_abc"}
@@ -230,15 +232,17 @@ def eval_pair(job):
     out = []
 
     def bad(obs, msg, tags=()):
-        out.append(({"cls": cls, "obs": obs, "tags": list(tags) + [f"q1={n1}", f"q2={n2}"], "msg": msg}, {"job": job}))
+        out.append(({"cls": cls, "obs": obs, "tags": list(tags) + [f"q1={n1}", f"q2={n2}"] + ([job["base"]] if job.get("base") else []),
+                     "msg": msg}, {"job": job}))
 
-    h = Held(cls, BASE[cls])
+    bname = job.get("base") or BASE[cls]
+    h = Held(cls, bname)
     qs = queries(h.obj)
     if n1 not in qs or (n2 and n2 not in qs):
         return out
-    base = Held(cls, BASE[cls])
+    base = Held(cls, bname)
     r1_0 = run_query(queries(base.obj)[n1], base.obj)            # answers on an untouched shape
-    r2_0 = run_query(queries(base.obj)[n2], Held(cls, BASE[cls]).obj) if n2 else None
+    r2_0 = run_query(queries(base.obj)[n2], Held(cls, bname).obj) if n2 else None
     p0 = me.project(base.obj)          # projection of an identical, untouched shape
     r1 = run_query(qs[n1], h.obj)
     changed = h.check()
